@@ -426,7 +426,9 @@ std::string generate_alone(const Op& op) {
   CodeHolder code;
   StringLogger logger;
   gen::RecordingHandler eh;
-  if (code.init(Environment(gen::arch_of(t))) != Error::kOk) return "init failed";
+  Environment env(gen::arch_of(t));
+  if (op.a[3] & 4) env.set_platform(Platform::kWindows);   // same arch and calling-convention ids, another ABI behind them
+  if (code.init(env) != Error::kOk) return "init failed";
   code.set_error_handler(&eh);
   if (op.a[3] & 1) code.set_logger(&logger);
   std::string out;
@@ -489,7 +491,10 @@ void execute_c(const Plan& plan) {
   sim::heap::arm(true);
   int n = int(plan.get("threads", 2));
   // reference: each program generated alone, before any thread exists
-  for (auto& op : plan.ops) { sim::AsmjitScope s; w.reference.push_back(generate_alone(op)); }
+  // (in REVERSE plan order: whatever a call leaves behind outside of its own objects - a process-wide or per-thread cache
+  // keyed by less than the whole input - then has another predecessor here than in the thread that repeats the program)
+  w.reference.resize(plan.ops.size());
+  for (size_t i = plan.ops.size(); i-- > 0;) { sim::AsmjitScope s; w.reference[i] = generate_alone(plan.ops[i]); }
   w.ops.resize(size_t(n));
   for (auto& op : plan.ops) w.ops[size_t(op.thread) % size_t(n)].push_back(&op);
   sim::sched::run(n, thread_body_c, &w, plan.seed, int(plan.get("strategy", 0)));
@@ -511,7 +516,7 @@ Plan generate_c(uint64_t seed, bool thorough) {
   size_t per_thread = size_t(1 + r.below(thorough ? 4 : 2));
   for (int t = 0; t < n; t++) for (size_t i = 0; i < per_thread; i++) {
     Op op; op.thread = uint16_t(t); op.kind = kGenerate;
-    op.a[0] = int64_t(r.below(9)); op.a[1] = int64_t(r.next() & 0x7fffffffffffll); op.a[2] = int64_t(r.below(1000)); op.a[3] = int64_t(r.below(4));
+    op.a[0] = int64_t(r.below(9)); op.a[1] = int64_t(r.next() & 0x7fffffffffffll); op.a[2] = int64_t(r.below(1000)); op.a[3] = int64_t(r.below(8));
     p.ops.push_back(op);
   }
   return p;
